@@ -40,6 +40,17 @@ def session_for(ctx, k):
     return s
 
 
+def esc_count(x):
+    """number of ESC characters in the strings of a JSON-like value"""
+    if isinstance(x, str):
+        return x.count(ESC)
+    if isinstance(x, dict):
+        return sum(esc_count(v) for v in x.values())
+    if isinstance(x, (list, tuple)):
+        return sum(esc_count(v) for v in x)
+    return 0
+
+
 def coloured_tokens(raw_chunks, r, n):
     """pieces of the coloured output a user might paste back: whole coloured spans, labels, matcher renderings"""
     toks = []
@@ -97,14 +108,18 @@ def run(ctx):
             ra, rb = a['obs'].get('_raw', []), b['obs'].get('_raw', [])
             raws += rb
             stripped = [(c, SGR.sub('', t)) for c, t in rb]
-            if stripped != [(c, t) for c, t in ra]:
-                first = next((j for j, (x, y) in enumerate(zip(stripped, ra)) if x != tuple(y)), min(len(stripped), len(ra)))
+            # escape sequences that are part of the input (passed-through chatter) are removed from the coloured output along with
+            # the tool's own: the uncoloured side is then compared without them as well
+            here_esc = esc_count(a['in'])
+            ra_cmp = [(c, SGR.sub('', t) if here_esc else t) for c, t in ra]
+            if stripped != ra_cmp:
+                first = next((j for j, (x, y) in enumerate(zip(stripped, ra_cmp)) if x != tuple(y)), min(len(stripped), len(ra)))
                 rep.violation('colour-changes-text:' + a['in']['e'] + ('.' + a['in'].get('c', '') if a['in']['e'] == 'cmd' else ''),
                               'with colour, minus the escape sequences, the output of event %d (%s) is not the uncoloured output: %r vs %r'
                               % (i + 1, json.dumps(a['in'])[:150], stripped[first:first + 1], ra[first:first + 1]),
                               {'kind': 'session', 'trace': sessionprop.inputs_only(s), 'render': render})
                 break
-            if not input_has_esc and any(ESC in t for c, t in ra):
+            if sum(t.count(ESC) for c, t in ra) > here_esc:
                 rep.violation('escape-without-colour', 'with colour disabled the tool emits an escape sequence at event %d: %r' % (i + 1, ra),
                               {'kind': 'session', 'trace': sessionprop.inputs_only(s), 'render': render})
                 break
@@ -142,9 +157,9 @@ def run(ctx):
                 outs[flag] = (rc, out, err)
             rep.case('process:%d' % k)
             a, b = outs['--color'], outs['--no-color']
-            if SGR.sub('', a[1]) != b[1] or a[0] != b[0]:
+            if SGR.sub('', a[1]) != (SGR.sub('', b[1]) if ESC in text else b[1]) or a[0] != b[0]:
                 rep.violation('process-colour-changes-text', 'main.py --color, minus escapes, differs from --no-color', {'kind': 'process', 'log': text})
-            if ESC in b[1] and ESC not in text:
+            if b[1].count(ESC) > text.count(ESC):
                 rep.violation('process-escape-without-colour', 'main.py --no-color emits an escape sequence', {'kind': 'process', 'log': text})
             if ESC not in a[1]:
                 rep.violation('process-no-colour-at-all', 'main.py --color emits no escape sequence at all', {'kind': 'process', 'log': text})
